@@ -22,9 +22,22 @@ def lex(s, allow_formals_comma=False):
     return toks, b[pos:].decode()
 def normint(t): return re.sub(r'^0+(?=\d)', '', t[2]) if t[1] == 'integer_expression' else t[2]
 def code(toks): return [(t[1], normint(t)) for t in toks if t[1] != 'comment']
+def drop_empty_let(seq, is_tok, text):
+    """a binding-less `let in` wrapper may be elided (C01): remove `let` … `in` pairs with no code token between them"""
+    out = list(seq); changed = True
+    while changed:
+        changed = False
+        for i, x in enumerate(out):
+            if is_tok(x) and text(x) == 'let':
+                j = i + 1
+                while j < len(out) and not is_tok(out[j]): j += 1
+                if j < len(out) and text(out[j]) == 'in':
+                    out = out[:i] + out[i + 1:j] + out[j + 1:]; changed = True; break
+    return out
 def code_nocomma(toks):
     c = code(toks)
-    return [x for i, x in enumerate(c) if not (x[1] == ',' and i + 1 < len(c) and c[i + 1][1] == '}')]
+    c = [x for i, x in enumerate(c) if not (x[1] == ',' and i + 1 < len(c) and c[i + 1][1] == '}')]
+    return drop_empty_let(c, lambda x: True, lambda x: x[1])
 def normc(text):
     t = text.strip()
     if t.startswith('#'): return '#' + ' '.join(t[1:].split())
@@ -35,7 +48,7 @@ def interleave(toks):
     for t in toks:
         if t[1] == 'comment': out.append(('C', normc(t[2])))
         elif t[2] not in DELIMS: out.append(('T', normint(t)))
-    return out
+    return drop_empty_let(out, lambda x: x[0] == 'T', lambda x: x[1])
 def nf_errors(r):
     lx = lex(r, True)
     if lx is None: return ['output does not parse']
